@@ -11,6 +11,8 @@ mod c10;
 mod c11;
 mod c12;
 mod c13;
+mod c14;
+mod c18;
 mod selectors;
 mod interp;
 mod pushref;
@@ -77,6 +79,8 @@ fn main() {
             "C06" => c06::replay(&v["replay"]),
             "C08" => c08::replay(&v["replay"]),
             "C13" => c13::replay(&v["replay"]),
+            "C14" => c14::replay(&v["replay"]),
+            "C18" => c18::replay(&v["replay"]),
             "C12" => c12::replay(&v["replay"]),
             "C11" => c11::replay(&v["replay"]),
             "C10" => c10::replay(&v["replay"]),
@@ -90,7 +94,7 @@ fn main() {
         std::process::exit(if ok { 0 } else { 1 });
     }
     let mut run = Run::new(&id, &tier);
-    match id.as_str() {
+    let outcome = mcx::guarded(|| match id.as_str() {
         "C04" => c04::run(&mut run),
         "C03" => c03::run(&mut run),
         "C05" => c05::run(&mut run),
@@ -98,6 +102,8 @@ fn main() {
         "C06" => c06::run(&mut run),
         "C08" => c08::run(&mut run),
         "C13" => c13::run(&mut run),
+        "C14" => c14::run(&mut run),
+        "C18" => c18::run(&mut run),
         "C12" => c12::run(&mut run),
         "C11" => c11::run(&mut run),
         "C10" => c10::run(&mut run),
@@ -107,6 +113,10 @@ fn main() {
             eprintln!("unknown check {id}");
             std::process::exit(2)
         }
+    });
+    if let Err(p) = outcome {
+        eprintln!("MACHINERY: the check itself panicked: {p}");
+        std::process::exit(2);
     }
     std::process::exit(run.finish());
 }
